@@ -24,6 +24,10 @@ RULE = ("sweep: one case per (configuration, row) for table rows, per (configura
         "reading of the source text with cells addressed by the documented column names; every case is non-trivial "
         "and distinct by that key.")
 ASSUMPTIONS = [
+    "number cells: [<]value[(unc)][E exp][*]; an exponent written after the uncertainty applies to value and "
+    "uncertainty alike, 2.4(8)E-5 = (2.4 +- 0.8)e-5, as in <6.0E-6; a cell in no documented notation is reported as "
+    "c07:table:unreadable-cell with what the library serves (only that row is skipped), a row that cannot be laid out "
+    "as c07:table:unreadable-row; the sweep always goes on",
     "added isotopes: in the configurations *-added every element 1..118 gets two isotopes with unused mass numbers "
     "(heaviest tabulated + 1 and + 9) through Element.add_isotope() after the table's neutron data were loaded and "
     "read; like any isotope without a row they and their first ion must serve no neutron data (has_sld() false, all "
@@ -54,10 +58,17 @@ _O = {}
 _ENV = {}
 
 
+def _isnum(x):
+    return isinstance(x, (int, float)) and not isinstance(x, bool)
+
+
 def oracle():
+    """Expected records (per process).  Never raises because of a cell's content: unreadable cells stay in the
+    record as tables_c07.Bad, rows that cannot be laid out go to O['problems']."""
     if _O:
         return _O
     t = tb.neutron_tables()
+    problems = list(t["problems"])
     rows = {}
     per_element = {}
     for r in t["rows"]:
@@ -67,21 +78,24 @@ def oracle():
         per_element.setdefault(r["z"], []).append(r["a"])
     # documented gap fills
     xe = rows.get((54, 0))
-    if xe is not None and xe["total"] is None and xe["coherent"] is not None and xe["incoherent"] is not None:
+    if xe is not None and xe["total"] is None and _isnum(xe["coherent"]) and _isnum(xe["incoherent"]):
         xe["total"] = xe["coherent"] + xe["incoherent"]
         xe["fills"].append("total")
     eu = rows.get((63, 151))
-    if eu is not None and eu["b_c"] is None and eu["coherent"] is not None:
+    if eu is not None and eu["b_c"] is None and _isnum(eu["coherent"]) and eu["coherent"] >= 0:
         eu["b_c"] = math.sqrt(eu["coherent"] * 100 / (4 * math.pi))
         eu["fills"].append("b_c")
     for key, r in rows.items():
         im = t["imag"].get(key)
-        r["b_c_i"], r["bp_i"], r["bm_i"] = (im[:3] if im else (None, None, None))
         if im and im[3] != r["sym"]:
-            raise ValueError("imaginary row %r names %s" % (key, im[3]))
+            problems.append(("nsftableI", "%d-%s" % (key[0], im[3]), "symbol differs from nsftable row %s" % r["id"]))
+            im = None
+        r["b_c_i"], r["bp_i"], r["bm_i"] = (im[:3] if im else (None, None, None))
+        if im:
+            r["cells"] = dict(r["cells"], b_c_i=im[4]["b_c_i"], bp_i=im[4]["bp_i"], bm_i=im[4]["bm_i"])
     for key in t["imag"]:
         if key not in rows:
-            raise ValueError("imaginary row %r has no row in nsftable" % (key,))
+            problems.append(("nsftableI", "%d-%s-%d" % (key[0], t["imag"][key][3], key[1]), "no such row in nsftable"))
     # element-level source: own row, else the sole isotope row
     element_src = {}
     for z, alist in per_element.items():
@@ -91,7 +105,7 @@ def oracle():
             element_src[z] = ("sole-isotope", alist[0])
         else:
             element_src[z] = ("unjudged", None)
-    _O.update(rows=rows, element_src=element_src, energy=tb.energy_tables())
+    _O.update(rows=rows, element_src=element_src, energy=tb.energy_tables(), problems=problems)
     return _O
 
 
@@ -176,6 +190,11 @@ def check_record(case, atom, label, rec, isotope_fields):
     """Compare the Neutron record served by *atom* with the expected record."""
     n = atom.neutron
     marks = rec["marks"]
+    # a cell the reader cannot read is evidence: report it with what the library serves, skip this row only
+    for f in NUMERIC + ("b_c_i", "bp_i", "bm_i") + (("abundance",) if isotope_fields else ()):
+        if isinstance(rec[f], tb.Bad):
+            raise V("table:unreadable-cell", "row %s (%s): cell %r is not in a documented notation but the library serves %r"
+                    % (rec["id"], f, rec[f].text, getattr(n, f, None)), case)
     for f in NUMERIC:
         got = getattr(n, f)
         if f in rec["fills"]:
@@ -349,6 +368,9 @@ def sweep(ctx, config):
         ctx.case((config,) + key, nontrivial=True, sample=dict(sample, config=config), cls=["config:" + config] + cls)
         ctx.check(CHECKS[case["kind"]], case)
 
+    for tname, row, why in O["problems"]:
+        ctx.violation("c07:table:unreadable-row", "[%s] %s: row %r cannot be laid out (%s)" % (config, tname, row, why),
+                      {"kind": "absent", "config": config, "z": 118, "a": 0})
     for (z, a) in sorted(_MADE.get(config, {})):
         run({"kind": "added", "z": z, "a": a}, ("added", z, a), {"added-after-loading": "%s-%d" % (table[z].symbol, a)},
             ["added-isotope:" + O["element_src"].get(z, ("element-without-rows",))[0]])
